@@ -51,6 +51,16 @@ class AstFacts:
         return r[0]
     def items(self, rel, kind=None, name=None):
         return [i for i in self.file(rel)["items"] if (kind is None or i["kind"] == kind) and (name is None or i["name"] == name)]
+    def items_in_crate(self, rel, kind=None, name=None):
+        """like items(), but looks in every source file next to `rel` as well (a type may have moved into a sibling module);
+        returns (file, item) pairs"""
+        d = os.path.dirname(rel)
+        out = []
+        for path, rec in self.files.items():
+            if os.path.dirname(path) != d and not path.startswith(d + "/"): continue
+            for i in rec["items"]:
+                if (kind is None or i["kind"] == kind) and (name is None or i["name"] == name): out.append((path, i))
+        return out
     def item_macros(self, rel):
         return self.file(rel)["macros"]
     def text(self, rel):
